@@ -374,18 +374,24 @@ def check_joint(rec, idx, rng, tier):
     J = rec.mode == 'J'
     n = (4 if tier == 'quick' else 12) if J else (12 if tier == 'quick' else 30)
     heavy = ('proximity', 'allocation', 'direction')
+    funcs = sorted({s.split('|')[0] for s in specs})
+    multi = [f for f in funcs if len({s.split('|')[1] for s in specs if s.startswith(f + '|')}) >= 2]
     for q in range(n):
-        nm = str(rng.choice(sorted({s.split('|')[0] for s in specs})))
+        # round-robin over the functions (those with several parameter variants twice as often), so that every one is probed in every run
+        pool = funcs + multi
+        nm = pool[(idx * n + q) % len(pool)]
         if J and nm in heavy and rng.random() < 0.8:
             continue
         cands = [s for s in specs if s.startswith(nm + '|')]
-        A, B = (str(x) for x in rng.choice(cands, size=2, replace=len(cands) < 2))
-        if rng.random() < 0.6:
+        A = str(rng.choice(cands))
+        others = [s for s in cands if s.split('|')[1] != A.split('|')[1]] or cands
+        B = str(rng.choice(others))
+        if rng.random() < 0.7:
             B = B.split('|'); B[2] = A.split('|')[2]; B = '|'.join(B)          # same dtype: the rasters of A and B are then identical for one seed
         shared_first = nm in ('ndvi', 'ndmi', 'nbr', 'nbr2', 'savi', 'gci') and rng.random() < 0.5
         rec.evaluation()
         try:
-            same = rng.random() < 0.6          # same raster content (=> identical dask input names), other parameters
+            same = rng.random() < 0.7          # same raster content (=> identical dask input names), other parameters
             ref0 = build(A, rec.seed)[0]()
             ref0 = np.asarray(ref0.data.compute()) if isinstance(ref0, xr.DataArray) and isinstance(ref0.data, da.Array) else None     # A built and computed at once
             ra = build(A, rec.seed)[0](); rb = build(B, rec.seed if same else rec.seed + 1)[0]()      # A stays lazy while B is built
